@@ -745,7 +745,7 @@ def obj_eq(ex, a, b):
     eqf = getattr(cls, '__eq__', None)
     if eqf is object.__eq__ or eqf is None:
         return isinstance(b, Ref) and a.oid == b.oid
-    if dataclasses.is_dataclass(cls) and getattr(eqf, '__qualname__', '').endswith('__eq__') and '__create_fn__' in getattr(eqf, '__qualname__', ''):
+    if dataclasses.is_dataclass(cls) and isinstance(eqf, types.FunctionType) and eqf.__code__.co_filename == '<string>':
         if not isinstance(b, Ref) or ex.obj(b).cls is not cls:
             return False
         ob = ex.obj(b)
